@@ -68,9 +68,6 @@ def strategy(tier, shard):
         split = draw(st.sampled_from(opts))
         if split is not None and split >= limit:
             split = None
-        if spec.get("v0") is not None and all(float(x).is_integer() for x in spec["v0"]) and draw(st.integers(0, 2)) == 0:
-            spec["enc"]["v0_dtype"] = "int"  # initial_value returns an integer-typed estimate (e.g. a state component)
-            spec["flags"] = spec["flags"] + ["v0-int-dtype"]
         return dict(spec=spec, cfg=cfg, limit=limit, split=split, drift_probe=draw(st.integers(0, 3)) == 0)
 
     return cases()
